@@ -197,30 +197,6 @@ def fclient_request__VerifyHTTPRequest : List String := [
   "return request, util.JSONResponse{Code: 200, JSON: struct{}{}}"
 ]
 
-def fclient_request__isSafeInHTTPQuotedString : List String := [
-  "func func(text string) bool",
-  "for i := 0; i < len(text); i++ {",
-  "c := text[i]",
-  "switch {",
-  "case c == '\\t':",
-  "continue",
-  "case c == ' ':",
-  "continue",
-  "case c == 0x21:",
-  "continue",
-  "case 0x23 <= c && c <= 0x5B:",
-  "continue",
-  "case 0x5D <= c && c <= 0x7E:",
-  "continue",
-  "case 0x80 <= c:",
-  "continue",
-  "default:",
-  "return false",
-  "}",
-  "}",
-  "return true"
-]
-
 def fclient_request__readHTTPRequest : List String := [
   "func func(req *http.Request) (*FederationRequest, error)",
   "var result FederationRequest",
@@ -585,14 +561,6 @@ def keyring_PublicKeyLookupRequest_UnmarshalText : List String := [
   "}",
   "r.ServerName, r.KeyID = spec.ServerName(parts[0]), KeyID(parts[1])",
   "return nil"
-]
-
-def keyring_PublicKeyLookupResult_WasValidAt : List String := [
-  "func func(atTs spec.Timestamp, signatureValidityCheck SignatureValidityCheckFunc) bool",
-  "if r.ExpiredTS != PublicKeyNotExpired {",
-  "return atTs < r.ExpiredTS",
-  "}",
-  "return signatureValidityCheck(atTs, r.ValidUntilTS)"
 ]
 
 def keyring__NoStrictValidityCheck : List String := [
@@ -1014,6 +982,6 @@ def spec_servername_type_ServerName : List String := [
   "type ServerName string"
 ]
 
-def functions : List String := ["fclient/request.go:FederationRequest.Content", "fclient/request.go:FederationRequest.Destination", "fclient/request.go:FederationRequest.HTTPRequest", "fclient/request.go:FederationRequest.Method", "fclient/request.go:FederationRequest.Origin", "fclient/request.go:FederationRequest.RequestURI", "fclient/request.go:FederationRequest.SetContent", "fclient/request.go:FederationRequest.Sign", "fclient/request.go:FederationRequest.checkFieldsUTF8", "fclient/request.go:.NewFederationRequest", "fclient/request.go:.ParseAuthorization", "fclient/request.go:.VerifyHTTPRequest", "fclient/request.go:.isSafeInHTTPQuotedString", "fclient/request.go:.readHTTPRequest", "fclient/request.go:type FederationRequest", "keyring.go:DirectKeyFetcher.FetchKeys", "keyring.go:DirectKeyFetcher.FetcherName", "keyring.go:DirectKeyFetcher.fetchKeysForServer", "keyring.go:DirectKeyFetcher.fetchNotaryKeysForServer", "keyring.go:JSONVerifierSelf.VerifyJSONs", "keyring.go:KeyRing.VerifyJSONs", "keyring.go:KeyRing.checkUsingKeys", "keyring.go:KeyRing.isAlgorithmSupported", "keyring.go:KeyRing.publicKeyRequests", "keyring.go:PerspectiveKeyFetcher.FetchKeys", "keyring.go:PerspectiveKeyFetcher.FetcherName", "keyring.go:PublicKeyLookupRequest.MarshalText", "keyring.go:PublicKeyLookupRequest.UnmarshalText", "keyring.go:PublicKeyLookupResult.WasValidAt", "keyring.go:.NoStrictValidityCheck", "keyring.go:.StrictValiditySignatureCheck", "keyring.go:.mapServerKeysToPublicKeyLookupResult", "keyring.go:type DirectKeyFetcher", "keyring.go:type JSONVerifier", "keyring.go:type JSONVerifierSelf", "keyring.go:type KeyClient", "keyring.go:type KeyDatabase", "keyring.go:type KeyFetcher", "keyring.go:type KeyRing", "keyring.go:type PerspectiveKeyFetcher", "keyring.go:type PublicKeyLookupRequest", "keyring.go:type PublicKeyLookupResult", "keyring.go:type PublicKeyNotaryLookupRequest", "keyring.go:type PublicKeyNotaryQueryCriteria", "keyring.go:type SignatureValidityCheckFunc", "keyring.go:type VerifyJSONRequest", "keyring.go:type VerifyJSONResult", "keys.go:ServerKeys.MarshalJSON", "keys.go:ServerKeys.PublicKey", "keys.go:ServerKeys.UnmarshalJSON", "keys.go:.CheckKeys", "keys.go:.checkVerifyKeys", "keys.go:type Ed25519Checks", "keys.go:type KeyChecks", "keys.go:type OldVerifyKey", "keys.go:type ServerKeyFields", "keys.go:type ServerKeys", "keys.go:type VerifyKey", "signing.go:.ListKeyIDs", "signing.go:.SignJSON", "signing.go:.VerifyJSON", "signing.go:.checkStrictJSON", "signing.go:.checkStrictString", "signing.go:type KeyID", "spec/servername.go:.ParseAndValidateServerName", "spec/servername.go:.isDNSNameChar", "spec/servername.go:.splitServerName", "spec/servername.go:type ServerName"]
+def functions : List String := ["fclient/request.go:FederationRequest.Content", "fclient/request.go:FederationRequest.Destination", "fclient/request.go:FederationRequest.HTTPRequest", "fclient/request.go:FederationRequest.Method", "fclient/request.go:FederationRequest.Origin", "fclient/request.go:FederationRequest.RequestURI", "fclient/request.go:FederationRequest.SetContent", "fclient/request.go:FederationRequest.Sign", "fclient/request.go:FederationRequest.checkFieldsUTF8", "fclient/request.go:.NewFederationRequest", "fclient/request.go:.ParseAuthorization", "fclient/request.go:.VerifyHTTPRequest", "fclient/request.go:.readHTTPRequest", "fclient/request.go:type FederationRequest", "keyring.go:DirectKeyFetcher.FetchKeys", "keyring.go:DirectKeyFetcher.FetcherName", "keyring.go:DirectKeyFetcher.fetchKeysForServer", "keyring.go:DirectKeyFetcher.fetchNotaryKeysForServer", "keyring.go:JSONVerifierSelf.VerifyJSONs", "keyring.go:KeyRing.VerifyJSONs", "keyring.go:KeyRing.checkUsingKeys", "keyring.go:KeyRing.isAlgorithmSupported", "keyring.go:KeyRing.publicKeyRequests", "keyring.go:PerspectiveKeyFetcher.FetchKeys", "keyring.go:PerspectiveKeyFetcher.FetcherName", "keyring.go:PublicKeyLookupRequest.MarshalText", "keyring.go:PublicKeyLookupRequest.UnmarshalText", "keyring.go:.NoStrictValidityCheck", "keyring.go:.StrictValiditySignatureCheck", "keyring.go:.mapServerKeysToPublicKeyLookupResult", "keyring.go:type DirectKeyFetcher", "keyring.go:type JSONVerifier", "keyring.go:type JSONVerifierSelf", "keyring.go:type KeyClient", "keyring.go:type KeyDatabase", "keyring.go:type KeyFetcher", "keyring.go:type KeyRing", "keyring.go:type PerspectiveKeyFetcher", "keyring.go:type PublicKeyLookupRequest", "keyring.go:type PublicKeyLookupResult", "keyring.go:type PublicKeyNotaryLookupRequest", "keyring.go:type PublicKeyNotaryQueryCriteria", "keyring.go:type SignatureValidityCheckFunc", "keyring.go:type VerifyJSONRequest", "keyring.go:type VerifyJSONResult", "keys.go:ServerKeys.MarshalJSON", "keys.go:ServerKeys.PublicKey", "keys.go:ServerKeys.UnmarshalJSON", "keys.go:.CheckKeys", "keys.go:.checkVerifyKeys", "keys.go:type Ed25519Checks", "keys.go:type KeyChecks", "keys.go:type OldVerifyKey", "keys.go:type ServerKeyFields", "keys.go:type ServerKeys", "keys.go:type VerifyKey", "signing.go:.ListKeyIDs", "signing.go:.SignJSON", "signing.go:.VerifyJSON", "signing.go:.checkStrictJSON", "signing.go:.checkStrictString", "signing.go:type KeyID", "spec/servername.go:.ParseAndValidateServerName", "spec/servername.go:.isDNSNameChar", "spec/servername.go:.splitServerName", "spec/servername.go:type ServerName"]
 
 end VPins.C13
